@@ -26,7 +26,7 @@ PIPE = {
     "C05": dict(clauses=["C05_"], sims=[("Sim_base", 60, 600, 150), ("Sim_multi", 40, 400, 170)], mc=[("MC_c05", 900, "both")], data=True),
     "C06": dict(clauses=["C06_"], sims=[("Sim_rollback", 100, 1000, 170)], mc=[("MC_c06", 900, "both")], data=True),
     "C07": dict(clauses=["C07_"], sims=[("Sim_crash", 80, 800, 150), ("Sim_multi_crash", 40, 400, 170)], mc=[("MC_c07", 900, "both"), ("MC_c07p", 2400, "thorough")], corpus=[("MC_c07p", 150, 2000)], crashpoints=True),
-    "C08": dict(clauses=["C08_"], sims=[("Sim_client", 90, 900, 150), ("Sim_base", 30, 300, 150), ("Sim_dev", 30, 300, 150), ("Sim_rollback", 20, 200, 170)], mc=[("MC_c08", 900, "both")]),
+    "C08": dict(clauses=["C08_"], sims=[("Sim_client", 90, 900, 150), ("Sim_base", 30, 300, 150), ("Sim_dev", 30, 300, 150), ("Sim_rollback", 20, 200, 170)], mc=[("MC_c08", 900, "both")], delays=True),
     "C09": dict(clauses=["C09_"], sims=[("Sim_base", 60, 800, 150), ("Sim_dev", 40, 400, 150), ("Sim_multi", 30, 300, 170), ("Sim_rbconn", 40, 400, 170)], mc=[("MC_c09", 900, "both"), ("MC_c09r", 900, "both")]),
     "C10": dict(clauses=["C10_"], sims=[("Sim_conn", 100, 1000, 150)], mc=[("MC_c10", 900, "both")]),
     "C11": dict(clauses=["C11_"], sims=[("Sim_dev", 100, 1000, 150), ("Sim_multi", 20, 200, 170)], mc=[("MC_c11", 900, "both")], crashpoints=True),
@@ -335,6 +335,8 @@ def check(prop, tier, replay_file=None):
                 s = normalise(b, "regress-" + name, sd)
                 scenarios.append(s)
                 origin[s["name"]] = "regress"
+        if conf.get("delays") and not replay_file:
+            scenarios += delayed_consumer_variants(scenarios, origin, tier, sd)
         # 3. replay on the real code
         tracedir = sc.mkdir("traces")
         infra = replay(bins, scenarios, tracedir)
@@ -359,6 +361,8 @@ def check(prop, tier, replay_file=None):
             r = per_trace.get(nm)
             if r is None:
                 raise vlib.Inconclusive("no validation result for trace " + nm)
+            if origin.get(nm) == "slow-consumer":
+                r["drift"] = []   # a composite step by construction (reconciles inside the handler's Watch step): state clauses only
             if r["drift"]:
                 drift_traces += 1
                 tl0 = [json.loads(x) for x in open(os.path.join(tracedir, nm + ".ndjson"))]
@@ -517,6 +521,38 @@ def clause_names(specdir):
     s = open(os.path.join(specdir, "OnosV2Trace.tla")).read()
     names = re.findall(r'name = "(\w+)" ->', s)
     return sorted(set(names))
+
+
+def delayed_consumer_variants(scenarios, origin, tier, sd):
+    """C08: the northbound handler creates its transaction, subscribes to it, and is slow to take the first event of
+    its stream (the handler goroutine loses the CPU between Watch() returning and its first receive).  In the
+    specification ClientWatch is one step; in a behaviour with fine-grained client steps the reconciles that follow the
+    Watch step are moved INSIDE it: the harness lets the real handler call Watch, runs those reconciles while nobody
+    reads the handler's stream, and only then lets it read.  Whatever the store does with a registered but unread
+    watcher, the handler must still be answered truthfully."""
+    rnd = random.Random(sd + 7)
+    out = []
+    for s in scenarios:
+        steps = s["steps"]
+        seen = {}
+        cands = []
+        for i, st in enumerate(steps):
+            if st["k"] == "hexec":
+                seen[st["h"]] = seen.get(st["h"], 0) + 1
+                if seen[st["h"]] == 2:
+                    j = i + 1
+                    while j < len(steps) and steps[j]["k"] == "run" and j - i <= 3:
+                        j += 1
+                    if j > i + 1:
+                        cands.append((i, j))
+        rnd.shuffle(cands)
+        for i, j in cands[:2]:
+            v = dict(s, name="%s-slow%03d" % (s["name"], i),
+                     steps=steps[:i] + [dict(steps[i], during=steps[i + 1:j])] + steps[j:])
+            out.append(v)
+            origin[v["name"]] = "slow-consumer"
+    rnd.shuffle(out)
+    return out[: (150 if tier == "quick" else 3000)]
 
 
 def crashpoint_variants(scenarios, origin, tier, sd, tracedir):
